@@ -114,6 +114,14 @@ class STIXdatetime(dt.datetime):
     def __repr__(self):
         return "'%s'" % format_datetime(self)
 
+    def __deepcopy__(self, memo):
+        # datetime's own copy protocol rebuilds the value from its packed
+        # state and would drop the precision metadata
+        return STIXdatetime(
+            self, precision=self.precision,
+            precision_constraint=self.precision_constraint,
+        )
+
 
 def deduplicate(stix_obj_list):
     """Deduplicate a list of STIX objects to a unique set.
